@@ -132,6 +132,11 @@ def deliver (c : Conn) : Msg → Conn × Out
   | .stats p => let r := incoming c.pending p; ({ c with pending := r.1 }, r.2)
   | .other => (c, .quiet)
 
+/-- `handle_STATS_REPLY` :176-181 first raises `RawStatsReply(con, msg)` for the message itself, whatever the assembly state -/
+def rawOf : Msg → Option Part
+  | .stats p => some p
+  | _ => none
+
 def runConn (c : Conn) : List Msg → Conn × List Out
   | [] => (c, [])
   | m :: ms =>
